@@ -282,6 +282,10 @@ class Arith:
         self.nf_events = []
         self.choice_cls = None   # set by the interpreter: ite over values without a term representation
         self.tree_mode = False   # keep values as ite-trees with constant leaves (regime 2)
+        self.watch = set()       # names of variables whose magnitude is unbounded (placeholders): see mul()
+        self.watch_hits = []
+        self._watch_cache = {}
+        self._watch_keep = []
 
     # ---- helpers -------------------------------------------------
     def fresh(self, prefix, sort="real"):
@@ -628,6 +632,13 @@ class Arith:
         if self.policy == "exact":
             raise NonLinear(f"product of two symbolic terms in exact regime: {a} * {b}")
         ra, rb = to_real(a), to_real(b)
+        if self.watch:
+            # magnitude watch (DESIGN 4.1): a value that still depends on a watched variable (a placeholder of unbounded magnitude)
+            # enters a product of two unknowns - in floating point that product can overflow before a zero weight removes it
+            for t in (ra, rb):
+                if self._mentions_watched(t):
+                    self.watch_hits.append((ra, rb))
+                    break
         # commutative by construction, independently of how the operands are written: m = f(a, b) + f(b, a)
         # (ordering the operands by AST id or structure is not enough - two executions may build semantically equal but
         # structurally different operands, and the order must not depend on that)
@@ -649,6 +660,26 @@ class Arith:
                 facts.append(z3.Implies(z3.And(ra >= 0, rb >= 0), m >= 0))
             self.lemma(key, z3.And(*facts))
         return m
+
+    def _mentions_watched(self, t):
+        key = t.get_id()
+        hit = self._watch_cache.get(key)
+        if hit is None:
+            hit = False
+            stack, seen = [t], set()
+            while stack:
+                x = stack.pop()
+                i = x.get_id()
+                if i in seen:
+                    continue
+                seen.add(i)
+                if z3.is_const(x) and x.decl().kind() == z3.Z3_OP_UNINTERPRETED and x.decl().name() in self.watch:
+                    hit = True
+                    break
+                stack.extend(x.children())
+            self._watch_cache[key] = hit
+            self._watch_keep.append(t)
+        return hit
 
     def div(self, a, b):
         if self.tree_mode and not self._in_lift:
